@@ -33,7 +33,7 @@ func TestC20Recording(t *testing.T) {
 		h.Exec(0, p, nil, after)
 		return
 	}
-	n := run.Scale(2500, 50000)
+	n := run.Scale(2500, 120000)
 	pf := profiles()
 	for i := 0; i < n; i++ {
 		p := prog.Gen(run.Rand(uint64(i)), h.Drivers, pf[i%len(pf)])
